@@ -1,6 +1,13 @@
 Require Extraction.
 Require Import ExtrOcamlBasic.
 From Coq Require Import NArith ZArith List.
-From CppcmsV Require Import C02.Defs.
+From CppcmsV Require Import C02.SMapDefs C02.SPool C02.Defs.
 Definition keep_types : (N * Z * nat) := (0%N, 0%Z, 0%nat).
-Extraction "c02m.ml" keep_types http_run scgi_run fcgi_run atoll atoi is_multipart scgi_unterminated_class.
+(* env_map e = env_map_build e (SMapDefs.v).  The front-end models look several names up in the environment of one request, each time
+   through env_map of the SAME list value: the extracted env_map keeps the last (argument, result) pair and returns the result again when
+   it is called with the physically identical argument (an immutable value), otherwise it calls env_map_build.  Same function,
+   three to four times fewer table constructions. *)
+Extract Constant env_map => "(let last = ref None in fun e -> match !last with Some (e0, m) when e0 == e -> m | _ -> let m = env_map_build e in last := Some (e, m); m)".
+Extraction "c02m.ml" keep_types http_run scgi_run fcgi_run atoll atoi is_multipart scgi_unterminated_class
+  env_map_build smap_empty smap_add smap_get smap_get_safe smap_clear smap_iter smap_hash cap total chain slots spec_get grow_needed
+  pool0 padd pclear pages cur free.
